@@ -319,8 +319,8 @@ package core
 //@   call Insert#5 assert [older-loser-kept] !newer && as($2, mergeEntry).BundleEntry.Hash == file.Hash && as($2, mergeEntry).ID == splitID
 //@   call d.deconflicter#2 assert [older-loser-split] $0 == splitID && $1 == existing.NameWithPath
 //@   call d.deconflicter#3 assert [older-loser-key] $0 == splitID && $1 == file.NameWithPath
-//@   send errorC#1 assert [forbid-newer] mode == model.ForbidConflicts && file.Hash != existing.Hash && splitID != existing.ID
-//@   send errorC#2 assert [forbid-older] mode == model.ForbidConflicts && file.Hash != existing.Hash && splitID != existing.ID
+//@   call WrapWithLog#1 assert [forbid-newer] mode == model.ForbidConflicts && file.Hash != existing.Hash && splitID != existing.ID
+//@   call WrapWithLog#2 assert [forbid-older] mode == model.ForbidConflicts && file.Hash != existing.Hash && splitID != existing.ID
 
 // every packed entry is stamped with its own upload time, taken when that entry is received
 //@ func (*fileIndex).pack
